@@ -32,7 +32,7 @@ SITES = [
 ]
 REQUIRED_COUNTERS = (
     ["outcome.ok", "outcome.ValidationError", "parse.ok", "parse.hostile_schemas", "depth.judged", "parse.raw_hostile_titles", "parse.beyond_recursion_budget",
-     "value.huge_int", "value.int_beyond_str_limit", "huge.outcome.ValidationError", "value.extreme_float", "value.surrogate", "value.nul", "value.long_string"]
+     "value.huge_int", "value.int_beyond_str_limit", "schema.int_beyond_str_limit", "huge.outcome.ValidationError", "value.extreme_float", "value.surrogate", "value.nul", "value.long_string"]
     + [f"site.{s}" for s in SITES]
 )
 
@@ -304,7 +304,17 @@ def hostilify(rng, schema, depth=0):
             out[key] = [hostilify(rng, sub, depth + 1) for sub in val]
         else:
             out[key] = val
+    if rng.random() < 0.08:
+        # keywords the library does not know (Draft 6 lets a schema carry any other member): names that mean
+        # something to Python or to the library's own constructors
+        out[rng.choice(["self", "cls", "args", "kwargs", "value", "name", "element", "elements", "property_",
+                        "mcs", "x-vendor", "$comment", "examples", "readOnly", "__class__", "__init__"])] = \
+            rng.choice([1, "x", None, [1], {"a": 1}, True])
+        UNKNOWN_KEYWORDS[0] += 1
     return out
+
+
+UNKNOWN_KEYWORDS = [0]
 
 
 def json_safe(value):
@@ -336,6 +346,8 @@ def parser_and_calls(ctx, sut):
             ctx.count("generator.metaschema_error_skipped")
             continue
         ctx.count("parse.hostile_schemas")
+        ctx.count("parse.unknown_keywords_added", UNKNOWN_KEYWORDS[0])
+        UNKNOWN_KEYWORDS[0] = 0
         ctx.evaluation()
         try:
             element = sut.parse_direct(schema)
@@ -497,10 +509,58 @@ def beyond_str_limit(ctx, sut):
                     f"{exc!r}"[:400])
 
 
+HUGE_SCHEMAS = [
+    {"const": HUGE_TOKEN}, {"enum": [HUGE_TOKEN, 1]}, {"minimum": HUGE_TOKEN}, {"maximum": HUGE_TOKEN},
+    {"exclusiveMinimum": HUGE_TOKEN}, {"exclusiveMaximum": HUGE_TOKEN}, {"multipleOf": HUGE_TOKEN},
+    {"not": {"const": HUGE_TOKEN}}, {"oneOf": [{"const": HUGE_TOKEN}, {"minimum": HUGE_TOKEN}]},
+    {"contains": {"const": HUGE_TOKEN}}, {"items": {"maximum": HUGE_TOKEN}}, {"properties": {"a": {"const": HUGE_TOKEN}}},
+    {"type": "string", "default": HUGE_TOKEN}, {"minLength": HUGE_TOKEN}, {"maxItems": HUGE_TOKEN}, {"minProperties": HUGE_TOKEN},
+    {"required": ["a"], "properties": {"a": {"default": HUGE_TOKEN, "maximum": 5}}},
+    {"propertyNames": {"const": HUGE_TOKEN}}, {"dependencies": {"a": {"minimum": HUGE_TOKEN}}},
+    {"anyOf": [{"minimum": HUGE_TOKEN}, {"type": "null"}]}, {"allOf": [{"maximum": HUGE_TOKEN}]},
+    {"type": ["integer", "string"], "minimum": HUGE_TOKEN}, {"additionalProperties": {"enum": [HUGE_TOKEN]}},
+]
+HUGE_SCHEMA_VALUES = [1, 0, -1, "x", "", [1], [], {"a": 1}, {}, None, True, 1.5, [[1]], {"a": {"a": 1}}, HUGE_TOKEN,
+                      [HUGE_TOKEN], {"a": HUGE_TOKEN}]
+
+
+def beyond_str_limit_in_schema(ctx, sut):
+    """The same limit on the schema's side: keyword values the interpreter cannot render.  Parsing must
+    work and every call must end in a result or in the validation error."""
+    for idx, shape in enumerate(HUGE_SCHEMAS):
+        for sign in (1, -1):
+            if (idx * 2 + (sign < 0)) % ctx.nshards != ctx.shard:
+                continue
+            schema = instantiate_huge(shape, sign)
+            case = {"schema_shape": shape, "sign": sign, "site": "hugeschema"}
+            ctx.evaluation()
+            try:
+                element = sut.parse_direct(schema)
+            except BaseException as exc:  # pylint: disable=broad-except
+                outcome = sut.outcome_class(exc)
+                if outcome not in ("SchemaParseError", "FeatureNotImplementedError"):
+                    ctx.witness("parse_escape." + outcome, case,
+                                f"{type(exc).__name__} escaped parse_element on a schema holding an integer of "
+                                f"5001 digits: {exc!r}"[:400])
+                continue
+            ctx.count("schema.int_beyond_str_limit")
+            for vshape in HUGE_SCHEMA_VALUES + ["<nothing>"]:
+                value = sut.NotPassed() if vshape == "<nothing>" else instantiate_huge(vshape, 1)
+                ctx.evaluation()
+                outcome, _res, exc = sut.call(element, value)
+                ctx.count("hugeschema.outcome." + outcome.replace("other:", "other_"))
+                if outcome not in ("ok", "ValidationError", "TypeError"):
+                    ctx.witness("escape." + outcome, {**case, "value_shape": vshape},
+                                f"{type(exc).__name__} escaped a call of an element whose schema holds an integer "
+                                f"of 5001 digits: {exc!r}"[:400])
+                    break
+
+
 def run_shard(ctx):
     from vlib import sut  # pylint: disable=import-outside-toplevel
 
     beyond_str_limit(ctx, sut)
+    beyond_str_limit_in_schema(ctx, sut)
     sites(ctx, sut)
     parser_and_calls(ctx, sut)
     raw_parser_calls(ctx, sut)
@@ -509,7 +569,16 @@ def run_shard(ctx):
 def replay(case, ctx):
     from vlib import sut  # pylint: disable=import-outside-toplevel
 
-    schema = case["schema"]
+    schema = case.get("schema")
+    if case.get("site") == "hugeschema":
+        element = sut.parse_direct(instantiate_huge(case["schema_shape"], case.get("sign", 1)))
+        vshape = case.get("value_shape", 1)
+        value = sut.NotPassed() if vshape == "<nothing>" else instantiate_huge(vshape, 1)
+        ctx.evaluation()
+        outcome, _res, exc = sut.call(element, value)
+        if outcome not in ("ok", "ValidationError", "TypeError"):
+            ctx.witness("escape." + outcome, case, f"{type(exc).__name__}: {exc!r}"[:300])
+        return
     if str(case.get("site", "")).startswith("huge_"):
         element = sut.parse_direct(schema)
         ctx.evaluation()
